@@ -145,7 +145,7 @@ fn main() {
                 None => {
                     let prefixes = if plan.shape == Shape::Grid {
                         vec![Vec::new()]
-                    } else if plan.shape == Shape::CapSpecial || plan.shape == Shape::Placement {
+                    } else if plan.shape == Shape::CapSpecial || plan.shape == Shape::Placement || plan.shape == Shape::Threshold {
                         let nf = flavours_of(entry).len() as u32;
                         (0..nf).map(|f| vec![(f, nf)]).collect()
                     } else {
